@@ -822,7 +822,8 @@ LEVEL_TEXT = ("Machine-checked theorems over an executable model of the emitted 
               "call resume pattern, $go resumption loop) and of propagateFunctionBlocking; the model is tied to the compiler on every "
               "run by compiling generated programs and comparing outputs under many suspension masks, Decl.Blocking flags and the "
               "skeleton of the emitted JavaScript with the model's run_direct / run_flat / propagate / flatten.")
-LEVEL_NOTE = ("Stage 1 only is modelled (if/for/labels/calls/return over integers): theorems carry `_partial` where they do not cover the "
-              "property text. Defers, panics, goto, switch, range, closures, calls inside expressions are reached by the differential "
-              "runs only (mask invariance, native Go, direct build). Three genuine defects of the unchanged tree are recorded as known "
-              "findings (call hoisting reorders evaluation, assignment LHS/RHS order, defers dropped after suspension during panic).")
+LEVEL_NOTE = ("Stage 1 (if/for/labels/break/continue/calls/return over integers) is modelled and fully proved: for every source "
+              "program and every schedule run_flat (compile p) = run_direct p (C02_flat_suspend_invariant_partial; `_partial` only "
+              "w.r.t. the property text). Defers, panics, goto, switch, range, closures are reached by the differential runs only "
+              "(mask invariance, native Go, direct build); calls inside expressions by Model/C02_Hoist.v. Four genuine defects of the "
+              "current tree are recorded as known findings (two hoisting/evaluation-order defects, two suspension-during-panic defects).")
